@@ -298,7 +298,18 @@ def error_cases(i):
             LOG.violation('c18.errors', PROP,
                           {'expr': e, 'order': order, 'form': form}, got,
                           'RuntimeError', note='missing variable')
-    for e in BAD_SYNTAX + BAD_TEXT:
+    # every non-Boolean construct also nested inside valid operators
+    nested = []
+    cores = ['-a', '+a', '2', 'a + b', 'f(a)', 'a < b', 'a * b', '-1',
+             'a if b else c', 'a == b', '[a]', 'a.b', '~2', '-(a & b)',
+             '+(a | b)', 'a >> 1']
+    ctxs = ['~%s', '~(%s)', 'not %s', 'not (%s)', '(%s) & a', 'a | (%s)',
+            'a and %s', '%s or b', 'not not %s', '~~%s', 'a & ~%s',
+            '(a | b) & (c | ~(%s))', 'not ~%s']
+    for core in cores:
+        for cx in ctxs:
+            nested.append(cx % core)
+    for e in BAD_SYNTAX + BAD_TEXT + nested:
         for form in ('expr', 'lambda'):
             LOG.hit('c18.errors')
             LOG.sig['err:syntax'] += 1
